@@ -276,14 +276,19 @@ func snapshotRound(tab *table) *roundResult {
 
 // env is what differs between a synctest bubble (exact quiescence) and real sockets (polling).
 type env struct {
-	afterChange func(tab *table) // the handler change is complete and identify's push has been delivered
+	// the handler change is complete; with wait also identify's push of it has been delivered
+	afterChange func(tab *table, wait bool)
 	afterOpens  func()
 	afterClose  func()
 	exact       bool
 }
 
 func bubbleEnv() env {
-	return env{afterChange: func(*table) { synctest.Wait() }, afterOpens: synctest.Wait, afterClose: synctest.Wait, exact: true}
+	return env{afterChange: func(_ *table, wait bool) {
+		if wait {
+			synctest.Wait()
+		}
+	}, afterOpens: synctest.Wait, afterClose: synctest.Wait, exact: true}
 }
 
 // playRounds drives the handler history and the opens.
@@ -305,9 +310,7 @@ func playRounds(c *caseSpec, opener, lis *node, e env, res *caseResult) {
 		}
 		// statement: "a handler removed BEFORE negotiation is never invoked" - the change is complete (and
 		// identify's push of the new protocol list has been delivered) before any stream is opened
-		if !rd.NoWait {
-			e.afterChange(tab)
-		}
+		e.afterChange(tab, !rd.NoWait)
 		if rd.Inject != nil {
 			opener.ps.SetProtocols(lis.key.ID, protocol.ConvertFromStrings(*rd.Inject)...)
 		}
@@ -330,12 +333,18 @@ func playRounds(c *caseSpec, opener, lis *node, e env, res *caseResult) {
 		e.afterOpens()
 		if !e.exact || rd.NoWait {
 			// without quiescence identify pushes may have changed the knowledge meanwhile (one push per
-			// change, so also to an intermediate table of this round): the oracle then accepts what any of
-			// these states allows
+			// change, so also to an intermediate table of this round; over real sockets the receiver may
+			// even apply two pushes in the wrong order, so any earlier table of the case can come back):
+			// the oracle then accepts what any of these states allows
 			after, _ := opener.ps.GetProtocols(lis.key.ID)
 			also := sortedStrings(after)
-			for _, op := range rd.Ops {
-				also = append(also, op.Name)
+			for qi := range c.Rounds[:ri+1] {
+				if e.exact && qi != ri {
+					continue
+				}
+				for _, op := range c.Rounds[qi].Ops {
+					also = append(also, op.Name)
+				}
 			}
 			for _, id := range also {
 				if !contains(rr.Know, id) {
